@@ -174,22 +174,32 @@ func genTmpl(r *vk.RNG, allowFail, allowTyped bool) Tmpl {
 }
 
 var sgrSeqs = []string{"\x1b[31m", "\x1b[0m", "\x1b[1;32m", "\x1b[38;5;200m", "\x1b[m", "\x1b[4m", "\x1b[0;1;34m", "\x1b[39;49m"}
+// the same with the 8-bit CSI introducer (U+009B) in place of ESC [ — ECMA-48 allows both forms
+var sgrSeqs8 = []string{"\u009b31m", "\u009b0m", "\u009b1;32m", "\u009b38;5;200m", "\u009bm", "\u009b0;1;34m"}
 var plainSegs = []string{"hello", " ", "[INFO]", "m", "31m", "[", "error: x", "ünï", "100%", "a;b", "", "\t", "0m", "]", "(", "=>"}
 
 // genColoured builds a line from plain segments and SGR colour sequences; returns (line, plain).
 func genColoured(r *vk.RNG) (string, string) {
 	var line, plain strings.Builder
 	n := r.Range(1, 7)
+	// per line: 7-bit introducers only, 8-bit only, or both
+	pool := sgrSeqs
+	switch r.Intn(4) {
+	case 0:
+		pool = sgrSeqs8
+	case 1:
+		pool = append(append([]string{}, sgrSeqs...), sgrSeqs8...)
+	}
 	for i := 0; i < n; i++ {
 		if r.Bool() {
-			line.WriteString(vk.Pick(r, sgrSeqs))
+			line.WriteString(vk.Pick(r, pool))
 		}
 		seg := vk.Pick(r, plainSegs)
 		line.WriteString(seg)
 		plain.WriteString(seg)
 	}
 	if r.Bool() {
-		line.WriteString("\x1b[0m")
+		line.WriteString(pool[1]) // reset
 	}
 	return line.String(), plain.String()
 }
@@ -282,6 +292,16 @@ func genRewriteStage(r *vk.RNG, d *Dataset, allowFail, first bool) Stage {
 		}
 		return stRename(pairs)
 	case 1:
+		if r.Chance(1, 3) {
+			// several templates in one stage, any of them may be the failing one
+			k := r.Range(2, 3)
+			dsts := []string{"out", "out2", "out3"}[:k]
+			ts := make([]Tmpl, k)
+			for i := range ts {
+				ts[i] = genTmpl(r, allowFail, first)
+			}
+			return stLabelTemplates(dsts, ts)
+		}
 		return stLabelTemplate(vk.Pick(r, append([]string{"out"}, c07Labels...)), genTmpl(r, allowFail, first))
 	case 2, 3:
 		return stLineFormat(genTmpl(r, allowFail, first))
@@ -298,7 +318,7 @@ func runC07(r *vk.Run) {
 	r.SetRule("records with label sets from an adversarial pool (empty, spaces, quotes, unicode, template-like text) and plain or SGR-coloured lines x pipelines of 1..3 rewriting stages " +
 		"(label_format renames, label_format/line_format templates from a family the harness evaluates itself incl. __line__/__timestamp__ and run-time failing templates, drop/keep with names and value matchers, decolorize), optionally followed by a filter on the rewritten label/line; " +
 		"evaluated by Engine.Eval and by per-stage expected-effect closures. non-trivial = distinct (records, pipeline) where at least one record's line or label set changes or is flagged.")
-	r.Assume("one label_format stage is all-renames (applied in order, chains included) or one template", "keep leaves __error__ labels undecided (Loki preserves them)", "templates only over valid UTF-8 label values")
+	r.Assume("one label_format stage is all-renames (applied in order, chains included), one template, or 2..3 templates writing fresh labels no template reads", "keep leaves __error__ labels undecided (Loki preserves them)", "templates only over valid UTF-8 label values")
 	msg, err := calibrateMsgLabel()
 	if err != nil {
 		r.Inconclusive(err.Error())
